@@ -17,6 +17,7 @@ from .. import facts as F
 from .. import specs as S
 from .. import absint
 from ..harness import *
+from ..absint import ult_mode
 from ..absint import OPTION, ORDERING
 from .C02 import build_by_type, find_tables
 
@@ -80,7 +81,8 @@ def run(chk):
         for n in nlist:
             key = "<%s as Ord>::cmp n=%d" % (K.adt, n)
             try:
-                it, outs, ops = call_with_tables(env, kind, ob, n, ["a", "b"])
+                with ult_mode():
+                    it, outs, ops = call_with_tables(env, kind, ob, n, ["a", "b"])
                 o, v, d = single_return(outs)
                 if o is not None:
                     v, d = check_lexcmp(o.value, n)
@@ -99,7 +101,8 @@ def run(chk):
             chk.add("C08.O", key, v, d, where=where_of(ob), sample=dict(obligation=key, verdict=v) if n == 7 else None)
             key = "<%s as PartialOrd>::partial_cmp n=%d" % (K.adt, n)
             try:
-                it, outs, ops = call_with_tables(env, kind, pb, n, ["a", "b"])
+                with ult_mode():
+                    it, outs, ops = call_with_tables(env, kind, pb, n, ["a", "b"])
                 o, v, d = single_return(outs)
                 if o is not None:
                     r = o.value
